@@ -21,6 +21,7 @@ CONSTANTS
   GenDefaults = {"a"}
   GenLiteOmit = {0}
   GenFixedSub = {"all"}
+  GenFullKinds = {"ReadOk", "ReadRaise", "ReadInvalid", "Write", "Assign", "AnnounceErr", "Untouched"}
   GenExtra = {"At", "Nest", "Deact", "Untouched"}
 CONSTRAINT Bound
 INVARIANT EmitMax
